@@ -363,7 +363,65 @@ impl Leg for OligoOne {
     }
 }
 
+/// pykmertools objects whose public data attributes are assigned generated values before they are used
+/// (py/attrfuzz.py in a child interpreter with a debug-assertions build of the module): most classes refuse
+/// every assignment; where one is accepted, using the object afterwards must still not index outside a buffer
+#[derive(Clone, Debug, Serialize, Deserialize)]
+pub struct AttrCase {
+    pub k: usize,
+    pub s: u64,
+    pub gk: usize,
+    pub w: usize,
+    pub m: usize,
+    pub seq: String,
+    pub seq2: String,
+    pub values: Vec<i64>,
+}
+
+pub struct PyAttrs;
+impl Leg for PyAttrs {
+    type Case = AttrCase;
+    const NAME: &'static str = "python-attribute-assignments";
+    fn strategy(_tier: Tier) -> BoxedStrategy<AttrCase> {
+        (1usize..=5, gen::square_strategy(), 1usize..=31, gen::wm_strategy(20, 40), "[ACGTacgtN]{30,200}", "[ACGT]{30,120}", proptest::collection::vec(prop_oneof![4 => 1i64..=8, 1 => 9i64..=31, 1 => Just(0i64), 1 => Just(1i64 << 20)], 1..=4))
+            .prop_map(|(k, s, gk, (w, m), seq, seq2, values)| AttrCase { k, s, gk, w, m, seq, seq2, values })
+            .boxed()
+    }
+    fn check(c: &AttrCase) -> Verdict {
+        let mut v = Verdict::new();
+        v.class("python-attributes");
+        let script = format!("{}/py/attrfuzz.py", crate::verif_root());
+        let out = std::process::Command::new("python3-vt")
+            .arg(&script)
+            .arg(serde_json::to_string(c).unwrap())
+            .env("VERIF_PYDIR_DBG", std::env::var("VERIF_PYDIR_DBG").unwrap_or_else(|_| format!("{}/.build/py-dbg", crate::verif_root())))
+            .env("PYTHONDONTWRITEBYTECODE", "1")
+            .output();
+        match out {
+            Err(_) => v.class("python-infra-error"),
+            Ok(o) => {
+                use std::os::unix::process::ExitStatusExt;
+                if let Some(sig) = o.status.signal() {
+                    v.fail("python-object-state-leads-to-unchecked-access", format!("the interpreter died of signal {} after public attributes were assigned {:?}: {}", sig, c.values, crate::util::trunc(&String::from_utf8_lossy(&o.stderr), 400)));
+                } else if !o.status.success() {
+                    v.class("python-infra-error");
+                } else {
+                    let r: serde_json::Value = serde_json::from_slice(&o.stdout).unwrap_or_default();
+                    let n = r["accepted"].as_array().map(|a| a.len()).unwrap_or(0);
+                    v.nontrivial = n > 0;
+                    v.class_if(n > 0, "python-attribute-assignment-accepted");
+                }
+            }
+        }
+        v
+    }
+}
+
 pub fn run(ctx: &mut Ctx) {
+    let n = ctx.share(ctx.tier.pick(64, 1_600));
+    ctx.run_leg::<PyAttrs>(n, false, 20);
+    crate::pyworker::infra_inconclusive(ctx);
+
     let n = ctx.share(ctx.tier.pick(2_000, 40_000));
     ctx.run_leg::<Cov>(n, true, 0);
     let n = ctx.share(ctx.tier.pick(1_200, 20_000));
@@ -382,6 +440,7 @@ pub fn replay(leg: &str, case: &serde_json::Value) -> Option<Result<Verdict, Str
     match leg {
         "mmap-writes" => Some(crate::engine::replay_leg::<Mmap>(case)),
         "mmap-giant" => Some(crate::engine::replay_leg::<MmapGiant>(case)),
+        "python-attribute-assignments" => Some(crate::engine::replay_leg::<PyAttrs>(case)),
         "cov-bins" => Some(crate::engine::replay_leg::<Cov>(case)),
         "ctr-partitions" => Some(crate::engine::replay_leg::<Ctr>(case)),
         "kcgr-vectors" => Some(crate::engine::replay_leg::<Kcgr>(case)),
